@@ -15,12 +15,12 @@ def add(pid, engine, category, technique, text, note, ref):
 
 add("C19", 'xenum', 'exploration',
     'bounded exhaustive enumeration of values, byte strings and declared lengths on the real quicwire package against an RFC 9000 arithmetic reference',
-    'Every value below 2^22 (quick) / 2^30 plus the first 2^26 values of the 8-byte class (thorough), every 2^k-boundary value up to 2^62-1, every 8-byte form over a 5-byte alphabet, every byte string of length <= 3 and every first byte x length 0..9 as decoder input (with different bytes behind the slice), every length class x declared-length boundary (up to 2^62-1) x remaining length 0..70 for the byte-string consumers: encoder, size function and decoder must agree with the reference on all of them; destinations inside guarded buffers with spare capacity 0..300: only the appended bytes may change, also when the string to append lies inside that spare capacity; results handed out earlier are not served again after the caller changed them. The whole check is also built for GOARCH=386 and run by the 64-bit program (declared lengths 2^32*m+k meet a 32-bit int); its findings are reported with the prefix [GOARCH=386].',
+    'Every value below 2^22 (quick) / 2^30 plus the first 2^26 values of the 8-byte class (thorough), every 2^k-boundary value up to 2^62-1, every 8-byte form over a 5-byte alphabet, every byte string of length <= 3 and every first byte x length 0..9 as decoder input (with different bytes behind the slice), every length class x declared-length boundary (up to 2^62-1) x remaining length 0..70 for the byte-string consumers: encoder, size function and decoder must agree with the reference on all of them; destinations inside guarded buffers with spare capacity 0..300: only the appended bytes may change, also when the string to append lies inside that spare capacity; results handed out earlier are not served again after the caller changed them; the empty string also as nil. The whole check is also built for GOARCH=386 and run by the 64-bit program (declared lengths 2^32*m+k meet a 32-bit int); its findings are reported with the prefix [GOARCH=386].',
     'Trusted: the 40-line arithmetic reference in checks/c19; values in [2^30+2^26, 2^62) are covered only through the boundary alphabet.',
     'DESIGN.md 4 C19')
 
 add("C01", 'xenum+seqx', 'exploration',
-    'bounded exhaustive enumeration of honest issuance flows (type x key x challenge length x nonce x entropy x batch x origin x blind alphabets, keys with truncated id 00/ff found by search, special origin names, the empty challenge as nil and as empty slice) on the real code with every message crossing the wire as bytes, plus all sequences (length 2..3/4) of issuances that share the issuer-side request object or are in flight together',
+    'bounded exhaustive enumeration of honest issuance flows (type x key x challenge length x nonce x entropy x batch x origin x blind alphabets, keys with truncated id 00/ff found by search, special origin names, the empty challenge as nil and as empty slice) on the real code with every message crossing the wire as bytes, plus all sequences (length 2..3/4) of issuances that share the issuer-side request object or are in flight together, plus the life of one type-3 client object across origins registered late and issuers with sibling token keys',
     "Every tuple of the per-type alphabets is run client -> bytes -> decoder -> issuer (-> attester for type 3) -> bytes -> client; the token must have the exact layout and verify under an independent verifier (crypto/rsa PSS; RFC 9497 evaluation recomposed from group primitives) and under the issuer's own Verify. Callers reuse their argument buffers after every call; issuers reuse their decoder object; several requests are evaluated before the first is finalized.",
     'Keys, nonces, challenges and blinds are fixed alphabets of representatives (boundary scalars 1, 2, N-1, leading-zero, DRBG); entropy is a SHA-256 counter DRBG installed in crypto/rand.Reader.',
     'DESIGN.md 4 C01, 9.2b')
@@ -41,12 +41,12 @@ add("C11", "xenum", "exploration",
     "Blind alphabets are boundary scalars plus DRBG values, for RSA also N-1 and respellings of one integer with leading zero bytes (same request required); a blind repeated within a batch; degenerate blinds (nil, empty, zero, order/modulus, wrong lengths and counts) must give the same outcome on every call; 'every run' is observed as repeated in-process issuance under different issuer randomness.",
     "DESIGN.md 4 C11")
 add("C18", "xenum", "exploration",
-    "bounded exhaustive enumeration of RSA public keys (every modulus bit length 16..2100/4104 x 4 value patterns x 9 exponents (incl. 0, 1, 2), moduli up to 20000 bits, OPRF keys found by search whose serialised public key starts or ends with a zero byte, plus 10 exponents whose DER ends in bytes that text handling trims), VOPRF keys and name keys against a hand-written DER/TLV reference and independent key-id computation",
+    "bounded exhaustive enumeration of RSA public keys (every modulus bit length 16..2100/4104 x 4 value patterns x 9 exponents (incl. 0, 1, 2), moduli up to 20000 bits, OPRF keys found by search whose serialised public key starts or ends with a zero byte, a key object refilled in place, plus 10 exponents whose DER ends in bytes that text handling trims), VOPRF keys and name keys against a hand-written DER/TLV reference and independent key-id computation",
     "Both SPKI forms round-trip; the RSASSA-PSS form is byte-identical to hand-assembled DER with the literal RFC 9578 AlgorithmIdentifier; each issuer TokenKeyID equals SHA-256 of the independently serialised public key; requests of types 1/2/5 carry its last byte; type-3 requests carry SHA-256 of the name key bytes the issuer published (hand-built for every key id x KEM x KDF x AEAD), also when one client object uses several name keys in turn, and a decoded name key serialises back to those bytes.",
     "Trusted: the hand DER encoder and the 63-byte AlgorithmIdentifier literal in checks/c18; crypto/elliptic for the P-384 public key reference.",
     "DESIGN.md 4 C18")
 add("C20", 'xenum', 'exploration',
-    'exhaustive enumeration of origin-name lengths 0..65535 x 4 content patterns through the padding functions (hook) and lengths 0..130 (plus ten lengths up to 65000) / 0..4128 x 3 content patterns (letters, interior zero bytes, leading zero bytes) end to end through the real client and issuer with up to thirteen neighbour names per name',
+    'exhaustive enumeration of origin-name lengths 0..65535 x 4 content patterns through the padding functions (hook) and lengths 0..130 (plus ten lengths up to 65000) / 0..4128 x 3 content patterns (letters, interior zero bytes, leading zero bytes) end to end through the real client and issuer with up to thirteen neighbour names per name (one client object per case), plus registered names that look like patterns or lists with look-alike neighbours',
     'unpad(pad(name)) == name and |pad(name)| == 32*max(1,ceil(n/32)) for every length; the registered name is served and every neighbour (last byte changed, shortened, extended, padding-like suffixes, leading zero bytes added or removed) is refused; the wire length equals base + 32*blocks for every request.',
     'Names are drawn from content patterns per length; names that cannot be marshalled (> ~65200 bytes) are outside the end-to-end part.',
     'DESIGN.md 4 C20, 9.2b')
@@ -67,7 +67,7 @@ add("C09", 'seqx', 'model_checking',
     'State merging assumes decisions depend on the dumped maps and the arguments only (the third search does not); event arguments are precomputed honest byte strings.',
     'DESIGN.md 4 C09, 9.2b')
 add("C14", "xenum+envx", "exploration",
-    "bounded exhaustive differential enumeration against crypto/ed25519 and math/big references: seeds x message lengths for derive/sign, every entropy-fault script with <= 1/2 deviations for GenerateKey (returned public key and Public() overwritten by the caller before signing), 54 A x 54 R x 17 S x 3 messages plus valid signatures for low-order keys over the whole S alphabet (R = [S]B + torsion) plus all bit flips for Verify, all triples/pairs of a 309/786-scalar limb-boundary alphabet for the scalar arithmetic (alphabet closed under inversion), alphabet scalars x 14 points for the point operations",
+    "bounded exhaustive differential enumeration against crypto/ed25519 and math/big references: seeds x message lengths for derive/sign, every entropy-fault script with <= 1/2 deviations for GenerateKey (returned public key and Public() overwritten by the caller before signing), 54 A x 54 R x 17 S x 3 messages plus valid signatures for low-order keys over the whole S alphabet (R = [S]B + torsion) plus all bit flips for Verify (an honest signature is verified right after every case), all triples/pairs of a 309/786-scalar limb-boundary alphabet for the scalar arithmetic (alphabet closed under inversion), alphabet scalars x 14 points for the point operations",
     "Byte equality with the standard library for key derivation and signatures, identical read sequence and results under every enumerated entropy script, identical Verify verdicts on torsion/non-canonical/boundary inputs, and agreement of the internal scalar/point arithmetic with math/big and an affine Edwards reference (through the verif hook).",
     "Arithmetic equivalence is reached only through the boundary alphabets (limb patterns, q*L+r bands): a wrong carry needing an operand outside them is invisible. This is the thinnest claim of the set.",
     "DESIGN.md 4 C14")
@@ -78,7 +78,7 @@ add("C15", 'xenum+seqx', 'exploration',
     'DESIGN.md 4 C15, 9.2b')
 
 add("C06", 'xenum', 'exploration',
-    "bounded exhaustive enumeration of (request, blind, client key) inputs to the real attester: every single-bit flip of each of the six inputs of 2/4 honest triples (also with the request object's encoding cached, also with the client already registered), every signature length 0..97, 9x9 boundary (r,s) pairs, foreign signatures / blinds / keys, malformed key encodings, blinds that are not scalars (2^384-1, 64 bytes, 49 bytes), fields of non-wire lengths, a foreign request key with contents signed by the client's blinded key, the next request written over the accepted one in the caller's buffers, ciphertexts of 65535/65536/65537 bytes; reference verdict from crypto/ecdsa and an independent key-blinding reference; cache watched for writes",
+    "bounded exhaustive enumeration of (request, blind, client key) inputs to the real attester: every single-bit flip of each of the six inputs of 2/4 honest triples (also with the request object's encoding cached, also with the client already registered), every signature length 0..97, 9x9 boundary (r,s) pairs, foreign signatures / blinds / keys, malformed key encodings, blinds that are not scalars (2^384-1, 64 bytes, 49 bytes), fields of non-wire lengths, a foreign request key with contents signed by the client's blinded key, anonymous origin ids of other lengths, key and blind bytes cut at another place after acceptance, the next request written over the accepted one in the caller's buffers, ciphertexts of 65535/65536/65537 bytes; reference verdict from crypto/ecdsa and an independent key-blinding reference; cache watched for writes",
     'VerifyRequest returns nil exactly when the signature verifies under the request key over the hand-rebuilt message and the request key equals the client key multiplied by the reference blinding factor; every rejected request leaves the cache dump and Put count unchanged.',
     'Honest triples use boundary-scalar secrets and blinds; requests are handed over as structs as the API takes them.',
     'DESIGN.md 4 C06, 9.2b')
@@ -88,13 +88,13 @@ add("C12", "xenum", "exploration",
     "Scalars, blinds (incl. zero, leading-zero, >= N and over-long encodings; one signature object is shown to all verifiers in turn), contexts and digests come from boundary alphabets; P-224 is pinned to (SHA-256, L=32) as in the code, no RFC suite fixes it.",
     "DESIGN.md 4 C12")
 add("C13", "xenum+envx", "exploration",
-    "bounded exhaustive differential enumeration against crypto/ecdsa: 18x18 boundary (r,s) pairs around honest signatures x digest variants, signatures constructed around nonce points with affine x in [N,P) under the public key recovered from them, ~1000-1700 DER mutations per honest ASN.1 signature, cross acceptance of every producer, and every entropy-fault script with <= 1/2 deviations for key generation and the signing entry points",
+    "bounded exhaustive differential enumeration against crypto/ecdsa: 18x18 boundary (r,s) pairs around honest signatures x digest variants, signatures constructed around nonce points with affine x in [N,P) or a tiny x (shortest DER) under the public key recovered from them, signatures made backwards for public keys with x = 0..5, ~1000-1700 DER mutations per honest ASN.1 signature, cross acceptance of every producer, and every entropy-fault script with <= 1/2 deviations for key generation and the signing entry points",
     "Verify/VerifyASN1 verdicts equal the standard library's on every case; every signature produced here verifies there and vice versa; an entropy reader error at any enumerated read position yields an error and no key/signature, and short reads without error yield the same result as the default script (both MaybeReadByte coin outcomes observed per script).",
     "Valid public keys only (an off-curve key panics inside crypto/elliptic by design); values outside the boundary sets are not covered.",
     "DESIGN.md 4 C13")
 
 add("C05", 'xenum', 'exploration',
-    "bounded exhaustive enumeration of batch compositions (every sequence of length 1..3/4 over a 9-letter request alphabet incl. a type-1 key whose truncated id collides with the type-2 key's, x 10 issuer configurations; a probe batch against every ordered arrangement of every subset of five issuers (326 configurations); issuer objects whose key is rotated between two batches; two type-2 issuers whose truncated key ids coincide (requests only the second can sign); response lists of exactly 63..65, 16383..16385 (65535..65537) bytes; plus large homogeneous batches crossing the 2^14 and 2^16 byte boundaries of the response list) through the real client, wire codecs, EvaluateBatch, response decoder and per-request finalization, against a per-request reference model",
+    "bounded exhaustive enumeration of batch compositions (every sequence of length 1..3/4 over a 9-letter request alphabet incl. a type-1 key whose truncated id collides with the type-2 key's, x 10 issuer configurations; a probe batch against every ordered arrangement of every subset of five issuers (326 configurations); issuer objects whose key is rotated between two batches; one client object building two batches; the same request twice in a batch; two type-2 issuers whose truncated key ids coincide (requests only the second can sign); response lists of exactly 63..65, 16383..16385 (65535..65537) bytes; plus large homogeneous batches crossing the 2^14 and 2^16 byte boundaries of the response list) through the real client, wire codecs, EvaluateBatch, response decoder and per-request finalization, against a per-request reference model",
     'The decoded response has exactly one entry per request in order; entry i is present exactly when a configured issuer of its type and truncated key id evaluates request i alone; every present entry finalizes under its own request state to a token that verifies independently; type-2 entries are byte-identical to the stand-alone evaluation, so failing neighbours change nothing.',
     "Two issuers of one type sharing a truncated key id: present iff one of them can sign, entry = stand-alone evaluation by the first that can, token judged only when that is the request's own key; the unknown-key-id letter uses the first byte of issuer A's id where that is free.",
     'DESIGN.md 4 C05, 9.2b')
@@ -117,7 +117,7 @@ add("C16", 'xenum+seqx', 'model_checking',
     'DESIGN.md 4 C16, 9.2b')
 
 add("C17", 'vsched', 'model_checking',
-    'stateless schedule exploration with a pre-emption bound (quick: bound 1, coarse granularity; thorough: fine granularity bound 1, then coarse granularity bound 2) of 33 scenarios (2-3 goroutines, one call each on one shared issuer, attester or key: freshly constructed, with a sequential history of rejected and served requests, built over a key object its owner has already used or assembled from raw numbers; one blinding key shared by all calls) over pat-go sources instrumented with scheduling points, executed under a cooperative scheduler that is invisible to the Go race detector, so that every explored schedule is also checked for data races by happens-before analysis',
+    'stateless schedule exploration with a pre-emption bound (quick: bound 1, coarse granularity; thorough: fine granularity bound 1, then coarse granularity bound 2) of 35 scenarios (2-3 goroutines, one call each - in one scenario one, four and four calls - on one shared issuer, attester or key: freshly constructed, with a sequential history of rejected and served requests, built over a key object its owner has already used or assembled from raw numbers; one blinding key shared by all calls) over pat-go sources instrumented with scheduling points, executed under a cooperative scheduler that is invisible to the Go race detector, so that every explored schedule is also checked for data races by happens-before analysis',
     "For each of >10^4 distinct schedules per run: no race report on any memory (pat-go, circl, math/big, standard library), every call's result is one a sequential call could have produced (responses finalize to valid tokens, key ids / blinded keys / signatures equal the sequential ones, forged tokens rejected), no deadlock, no panic. Finds data races (lazy initialisation, in-place normalisation, memoisation, shared scratch buffers, counters, self-reordering lists) and race-free atomicity bugs (correctly locked check-then-act, CAS flag instead of sync.Once).",
     "Dependencies are atomic steps of a schedule (their races are still detected); coarse granularity = statements in tokens/ and in every function that mentions a package-level variable, function entries elsewhere; the race detector's bounded shadow history means a given race is reported in some schedules only.",
     'DESIGN.md 3.4, 4 C17, 9.2')
